@@ -1,6 +1,7 @@
 """U-qstr: compile_quoted_string_ex (escape decoding), verbatim, against the property's escape table (C09)."""
 from vf.core import Unit
-from vf.rustcut import SourceFile, while_let_to_loop
+import re
+from vf.rustcut import SourceFile, while_let_to_loop, Undecided
 from . import common
 
 NAME = "U-qstr"
@@ -30,10 +31,10 @@ pub open spec fn decode(s: Seq<char>) -> Seq<char> decreases s.len() {
 
 
 def build(repo):
-    u = Unit(NAME, TOOL, PROPS, ["src/compile.rs: compile_quoted_string_ex"],
+    u = Unit(NAME, TOOL, PROPS, ["src/compile.rs: compile_quoted_string_ex", "src/compile.rs: CompilerState::compile_quoted_string (statements after the loop, R8)"],
              assumptions=["A-vstd: prophetic iterator specification of str::chars()", "A-spec: char::from_u32 returns Some(v as char) for scalar values",
                           "termination of the decoding loop is not proved (R9): IteratorSpec::decrease() is not known to decrease across a None result",
-                          "NUL termination / concatenation in compile_quoted_string and the quoted_character arm of parse_int take pest Pairs and are not under contract"])
+                          "the loop of compile_quoted_string over the pest Pairs of adjacent literals (concatenation) and the quoted_character arm of parse_int are not under contract; only its tail (NUL termination) is"])
     comp = SourceFile(repo, "src/compile.rs")
     q = comp.fn("compile_quoted_string_ex")
     cuts = [q]
@@ -55,7 +56,34 @@ fn compile_quoted_string_ex(s: &str) -> (v: String)
                 assert(r1.len() > 0 ==> r0[1] == r1[0]);
             }""")
     q.after_line(r"^\s*\} else \{", "            proof { assert(r0.subrange(1, r0.len() as int) =~= i.remaining()); }")
-    text = common.PRELUDE + common.header_comment(NAME, cuts) + "verus! {\n" + SPECS + q.text + "\n" + common.CANARY + "\n} // verus!\n"
+    # R8: tail of compile_quoted_string (after the loop over the literal's pieces): exactly one NUL is appended to what was accumulated
+    cq = comp.fn("compile_quoted_string", within="CompilerState")
+    body = cq.body_only()
+    from vf.rustcut import mask, match_brace, Cut
+    mk = mask(body)
+    lp = re.search(r"\bfor \w+ in \w+ \{", mk)
+    if not lp:
+        raise Undecided("compile_quoted_string: loop over the pieces not found")
+    cb = match_brace(mk, lp.end() - 1)
+    tail = Cut(body[cb + 1:], cq.rel, cq.line0, "compile_quoted_string: statements after the loop over the pieces (R8)")
+    cuts.append(tail)
+    # R15: string predicates without vstd specifications (bodies are the original calls)
+    tail.sub(r"(\w+)\.ends_with\(('(?:\\.|[^'\\])')\)", r"str_ends_with_char(&\1, \2)", "R15 ends_with(char)")
+    tail.sub(r"(\w+)\.starts_with\(('(?:\\.|[^'\\])')\)", r"str_starts_with_char(&\1, \2)", "R15 starts_with(char)")
+    tail.sub(r"(\w+)\.is_empty\(\)", r"str_is_empty(&\1)", "R15 is_empty()")
+    tail_fn = """
+#[verifier::external_body] pub fn str_ends_with_char(s: &String, c: char) -> (r: bool) ensures r == (s@.len() > 0 && s@[s@.len() - 1] == c) { s.ends_with(c) }
+#[verifier::external_body] pub fn str_starts_with_char(s: &String, c: char) -> (r: bool) ensures r == (s@.len() > 0 && s@[0] == c) { s.starts_with(c) }
+#[verifier::external_body] pub fn str_is_empty(s: &String) -> (r: bool) ensures r == (s@.len() == 0) { s.is_empty() }
+// R8: what compile_quoted_string does with the concatenated, decoded pieces `v`
+fn quoted_string_tail(v: String) -> (r: String)
+    ensures r@ == v@.push(0u8 as char), //@ C09:single-nul-terminator
+{
+    let mut v = v;
+%s
+}
+""" % tail.text
+    text = common.PRELUDE + common.header_comment(NAME, cuts) + "verus! {\n" + SPECS + q.text + "\n" + tail_fn + common.CANARY + "\n} // verus!\n"
     u.text[None] = text
     u.rewrites = common.collect_rewrites(cuts)
     u.dropped = ["R10: while-let desugared to loop/match (Rust reference definition)"]
